@@ -488,8 +488,69 @@ func c16Locks(c *Ctx, d *driverModel) {
 			}
 		}
 	}
+	// ... and, by ownership rather than by name: a driver field that the command loop writes with a plain store
+	// (not a channel, not a sync / sync/atomic object) belongs to the loop - no function started asynchronously by
+	// the driver, and no helper such a function calls, may read or write it (the timer kept for the *current* search
+	// read by the forwarder of a *superseded* one: wrong timer stopped, data race, nil dereference)
+	{
+		dstT := d.driverT.Underlying().(*types.Struct)
+		shared := func(t types.Type) bool {
+			if _, isChan := t.Underlying().(*types.Chan); isChan {
+				return true
+			}
+			ts := t.String()
+			return strings.HasPrefix(ts, "sync.") || strings.HasPrefix(ts, "sync/atomic.") || strings.HasPrefix(ts, "*sync.") || strings.HasPrefix(ts, "*sync/atomic.")
+		}
+		written := map[int]bool{}
+		for _, fn := range c.P.AllFuncs {
+			if fn.Blocks == nil || fn.Pkg != d.process.Pkg || fn.Parent() != nil {
+				continue
+			}
+			inLoopFam := false
+			for _, f := range funcFamily(d.process) {
+				if f == fn {
+					inLoopFam = true
+				}
+			}
+			if !inLoopFam {
+				continue
+			}
+			for _, b := range fn.Blocks {
+				for _, ins := range b.Instrs {
+					fa, ok := ins.(*ssa.FieldAddr)
+					if !ok || namedOf(fa.X.Type()) == nil || namedOf(fa.X.Type()).Obj() != d.driverT.Obj() || fa.Referrers() == nil {
+						continue
+					}
+					for _, ref := range *fa.Referrers() {
+						if st, ok := ref.(*ssa.Store); ok && st.Addr == ssa.Value(fa) {
+							written[fa.Field] = true
+						}
+					}
+				}
+			}
+		}
+		seenAsync := map[*ssa.Function]bool{}
+		for _, gt := range withHelpers(goTargets(d.process)) {
+			fn := gt.fn
+			if seenAsync[fn] || fn == d.process {
+				continue
+			}
+			seenAsync[fn] = true
+			for _, b := range fn.Blocks {
+				for _, ins := range b.Instrs {
+					fa, ok := ins.(*ssa.FieldAddr)
+					if !ok || namedOf(fa.X.Type()) == nil || namedOf(fa.X.Type()).Obj() != d.driverT.Obj() {
+						continue
+					}
+					if written[fa.Field] && !shared(dstT.Field(fa.Field).Type()) {
+						leaks = append(leaks, fmt.Sprintf("%s, started asynchronously, touches Driver.%s at %s, a plain field the command loop writes", c.P.FuncName(fn), core.FieldName(dstT.Field(fa.Field)), c.pos(fa.Pos())))
+					}
+				}
+			}
+		}
+	}
 	sort.Strings(leaks)
-	r.Check(len(leaks) == 0, "R16-locks", "lastPosition and options are touched only by the command-loop goroutine", c.pos(d.process.Pos()), "", strings.Join(leaks, "; "))
+	r.Check(len(leaks) == 0, "R16-locks", "driver state the command loop writes (lastPosition, options, the kept timer, ...) is touched only by the command-loop goroutine", c.pos(d.process.Pos()), "", strings.Join(leaks, "; "))
 	// the active flag is an atomic.Bool
 	dst := d.driverT.Underlying().(*types.Struct)
 	atomicOK := false
